@@ -1094,17 +1094,10 @@ def check_C11(tier, seed):
     out = os.path.join(v.wd, name + ".out")
     st = verif.run_tlc(sd, name, out, workers=4)
     v.add_tlc(st)
-    tot, results = verif.replay(binary, v.wd, out, label=name, test="TestJobConfigs", stride_extra=1 if thorough else 4,
-                                seed=seed, timeout=2400)
+    tot, results = verif.replay(binary, v.wd, out, label=name, test="TestJobConfigs", stride_extra=1,
+                                seed=seed, timeout=2400, extra_env={"VERIF_HTTP_FAIL": "1"} if thorough else None)
 
-    def classify(r, d):
-        q = d.get("query") or {}
-        c = q.get("config") or {}
-        if d["kind"] in ("job-panic", "process-crash") and c.get("trigger") == "onchange" and c.get("handlers") not in (None, "none"):
-            return "C11-onchange-skips-handler-verification"
-        if d["kind"] == "process-crash" and "stack overflow" in str(d.get("actual", "")) + str(d.get("note", "")):
-            return "C11-endstorecontext-self-recursion"
-        return None
+    classify = None
     v.add_replay(tot, results, classify=classify, label=name)
     os.remove(out)
     # (b) storms of concurrent run requests on overlapping job ids, traces validated by TLC
@@ -1155,7 +1148,7 @@ def check_C11(tier, seed):
                      "transforms and sinks talk to a loopback stub",
                      "runs are observed from inside the jobs' sources (probe around ReadEntities with a few ms delay): "
                      "overlapping source reads of one job id imply overlapping runs (sound, not complete)",
-                     "quick tier offers every fourth configuration of the box, thorough all"]
+                     "failing HTTP sinks (seconds of client retries) only in the thorough tier"]
     return v.finish(rule="spec/Raffle.tla model-checked (NoOverlap, PoolBound, Conservation, ResultPerRun, EveryRunEnds under "
                     "fairness); spec/JobConfigs.tla enumerates the configuration box, each accepted configuration is run on the "
                     "real scheduler; seeded storms of manual runs / events / kills / writes in child processes, traces "
